@@ -53,6 +53,24 @@ def sole_match_brace_holes(tokens, out=None, after_match=False):
     return out
 
 
+def is_lifetime_term(t, depth=0):
+    """does the term denote a syn::Lifetime (the `lifetime` field of a syn node, possibly through Option / references)?"""
+    if not isinstance(t, tuple) or not t or depth > 6:
+        return False
+    if t[0] == 'field' and t[2] == 'lifetime':
+        return True
+    if t[0] in ('payload',) and t[1] in ('Some',) and len(t) > 3:
+        return is_lifetime_term(t[3], depth + 1)
+    if t[0] in ('unwrap', 'some_of', 'ref', 'deref', 'clone'):
+        return is_lifetime_term(t[1], depth + 1)
+    if t[0] == 'iflet':
+        xs = [x for x in t[-2:] if x is not None and x != ('None',)]
+        return bool(xs) and all(is_lifetime_term(x, depth + 1) for x in xs)
+    if t[0] == 'mcall' and t[2] in ('as_ref', 'clone', 'unwrap') and len(t) == 3:
+        return is_lifetime_term(t[1], depth + 1)
+    return False
+
+
 def subst(tokens, forms):
     out = []
     for t in tokens:
@@ -74,6 +92,8 @@ def subst(tokens, forms):
                 out.append('where ' + m + ': __W ')
             elif f == 'arm':
                 out.append(m + '!{} => {} ')
+            elif f == 'lifetime':
+                out.append("'" + m + ' ')
             elif f == 'lit':
                 out.append('"' + m + '" ')
             elif f == 'none':
@@ -253,6 +273,8 @@ class GenModel:
             return 'generics:' + g
         if self.is_stream_valued(d, tmpl.fw, t):
             return 'stream'
+        if is_lifetime_term(t):
+            return 'lifetime'
         return 'scalar'
 
     def is_stream_valued(self, d, fw, t):
@@ -283,6 +305,8 @@ class GenModel:
                 forms[h] = 'where'
             elif h in arms:
                 forms[h] = 'arm'
+            elif c == 'lifetime':
+                forms[h] = 'lifetime'
             else:
                 forms[h] = 'ident'
         return forms
